@@ -545,19 +545,6 @@ theorem upSrc_sound (I : Interp γ ι) {l : SrcLit} {c p o : Expr} {d : Deps} (h
 
 /-! ### RenameFrame -/
 
-theorem inj_of_nodup_map {α : Type} (f : α → Name) : ∀ (l : List α), (l.map f).Nodup →
-    ∀ a b, a ∈ l → b ∈ l → f a = f b → a = b
-  | [], _, _, _, ha, _, _ => by cases ha
-  | x :: t, h, a, b, ha, hb, hab => by
-    simp only [List.map_cons, List.nodup_cons, List.mem_map, not_exists, not_and] at h
-    rcases List.mem_cons.mp ha with rfl | ha'
-    · rcases List.mem_cons.mp hb with rfl | hb'
-      · rfl
-      · exact absurd hab.symm (h.1 b hb')
-    · rcases List.mem_cons.mp hb with rfl | hb'
-      · exact absurd hab (h.1 a ha')
-      · exact inj_of_nodup_map f t h.2 a b ha' hb' hab
-
 theorem semOp_rename_iff (I : Interp γ ι) (m : List (Name × Name)) (F v : FVal γ) :
     semOp I (.rename m) [F] = some v ↔
       F.ser = false ∧ (m.map (·.1)).Nodup ∧ (F.fr.cols.map (renameFwd m)).Nodup ∧ v = ⟨renameFrame m F.fr, false⟩ := by
